@@ -4,7 +4,17 @@ use fst::raw::{Builder, Fst};
 use fst::{MapBuilder, SetBuilder};
 
 use crate::family::{is_monotone, Art, Rng};
-use crate::refdec::decode_file;
+use crate::refdec::{decode_file as decode_file_raw, Decoded};
+
+/// The independent reader indexes by the documented layout; on bytes that do
+/// not follow it, it may run out of bounds: that is a decoding failure.
+fn decode_file(bs: &[u8]) -> Result<Decoded, String> {
+    let owned = bs.to_vec();
+    match std::panic::catch_unwind(move || decode_file_raw(&owned)) {
+        Ok(r) => r,
+        Err(_) => Err("bytes do not parse under the documented layout (out-of-bounds while decoding)".to_string()),
+    }
+}
 use crate::refenc;
 
 #[derive(Default)]
@@ -177,14 +187,24 @@ pub fn build_and_crosscheck(fam: &[Art], index: &mut Index) -> Vec<Built> {
             index.fail(&["C09"], &a.name, "bytes differ from the reference encoder's canonical version-3 encoding");
         }
         // real reader on real bytes, natively (sanity; the solver does the symbolic probes)
-        match Fst::new(&bytes[..]) {
-            Ok(f) => {
-                if f.verify().is_err() { index.fail(&["C08"], &a.name, "built FST does not verify"); }
-                if f.len() != a.kvs.len() { index.fail(&["C01"], &a.name, "len()"); }
-                let got = f.stream().into_byte_vec();
-                if got != a.kvs { index.fail(&["C01"], &a.name, "stream() differs from the inserted entries"); }
+        let b2 = bytes.clone();
+        let kv2 = a.kvs.clone();
+        let native = std::panic::catch_unwind(move || -> Vec<(&'static str, String)> {
+            let mut fails = vec![];
+            match Fst::new(&b2[..]) {
+                Ok(f) => {
+                    if f.verify().is_err() { fails.push(("C08", "built FST does not verify".to_string())); }
+                    if f.len() != kv2.len() { fails.push(("C01", "len()".to_string())); }
+                    let got = f.stream().into_byte_vec();
+                    if got != kv2 { fails.push(("C01", "stream() differs from the inserted entries".to_string())); }
+                }
+                Err(e) => fails.push(("C01", format!("built FST does not open: {:?}", e))),
             }
-            Err(e) => index.fail(&["C01", "C10"], &a.name, &format!("built FST does not open: {:?}", e)),
+            fails
+        });
+        match native {
+            Ok(fails) => for (p, w) in fails { index.fail(&[p], &a.name, &w); },
+            Err(_) => index.fail(&["C01"], &a.name, "the crate's reader panicked on bytes the builder just produced"),
         }
         let v1 = refenc::encode(1, 0, &a.kvs).bytes;
         let v2 = refenc::encode(2, 0, &a.kvs).bytes;
@@ -287,6 +307,7 @@ pub fn emit_rust(built: &[Built], seed: u64, tier: &str, want: &dyn Fn(&str) -> 
             let sname = format!("F_{}", name.to_uppercase());
             emit_static(&mut s, &sname, &b.bytes);
             let mut maxl = if thorough { 4 } else { 3 }.min(b.depth + 1);
+            if b.art.group == "fan" && !thorough { maxl = 1; }
             if b.art.name == "uncommon_chain" { maxl = 4; }
             let scan = if b.max_fanout > 32 { 32 } else { b.max_fanout };
             for l in 0..=maxl {
